@@ -207,6 +207,8 @@ func workerMain() {
 	warmUp()
 	var hashes []string
 	rl := newRaceLog()
+	knownSeen := map[string]int{}
+	unknownRuns := 0
 	for run := *fFrom; run < *fTo; run++ {
 		c := generateTier(*fProp, runSeedFor(*fSeed, *fProp, run), run, *fTier)
 		c.Seed, c.Tier = *fSeed, *fTier
@@ -276,6 +278,7 @@ func workerMain() {
 		}
 		if len(viols) > 0 {
 			st.ViolatingRuns++
+			unknown := false
 			// one message per distinct signature in this run
 			seen := map[string]bool{}
 			for _, v := range viols {
@@ -283,6 +286,17 @@ func workerMain() {
 					continue
 				}
 				seen[v.Sig] = true
+				// Instances of a known finding beyond the first per worker are
+				// only counted: no need to minimise each of them again.
+				if v.Class != "race" {
+					if k0 := classifyCounterfactual(c, v); k0 != "" {
+						st.Notes["known_finding_instances_"+k0]++
+						knownSeen[v.Sig+"|"+k0]++
+						if knownSeen[v.Sig+"|"+k0] > 1 {
+							continue
+						}
+					}
+				}
 				mc, mv, minimised := c, v, false
 				if !*fNoMin && v.Class != "race" {
 					mc, mv, minimised = minimise(c, v)
@@ -295,11 +309,17 @@ func workerMain() {
 				if v.Class != "race" {
 					kid = classifyCounterfactual(mc, mv)
 				}
+				if kid == "" {
+					unknown = true
+				}
 				enc.Encode(&workerMsg{Type: "violation", Case: mc, Violation: mv, Minimised: minimised, Race: race, KnownID: kid})
 			}
 			// reports produced while minimising belong to mutated cases
 			rl.newReports()
-			if st.ViolatingRuns >= *fMaxViol {
+			if unknown {
+				unknownRuns++
+			}
+			if unknownRuns >= *fMaxViol {
 				st.Notes["stopped_early_too_many_violations"]++
 				break
 			}
